@@ -151,8 +151,12 @@ type runner struct {
 	curEv   string
 	inAudit bool
 	alpha   []int
-	maxDat  uint32       // highest data-file index the store has reached (retention is judged against it)
-	soft    []*violation // judged wrong, but the store's state is unaffected: reported, history continues
+	maxDat  uint32 // highest data-file index the store has reached (retention is judged against it)
+	// set when, after a restart, the store's newest data file is one that retention had
+	// already removed / moved to the backup directory (LoadBlockIndex re-creates it)
+	recreated int64
+	diagRet   string
+	soft      []*violation // judged wrong, but the store's state is unaffected: reported, history continues
 }
 
 func (r *runner) opts() *chain.BlockDBOpts {
@@ -228,6 +232,24 @@ func (r *runner) noteMaxDat() {
 	}
 }
 
+// getFail: a read failure of a block whose data file was re-created after a restart
+// is the listed symptom of one root cause (one key whatever the symptom); every other
+// failure keeps its own key.
+func (r *runner) getFail(i int, key, format string, a ...interface{}) *violation {
+	v := r.fail(key, format, a...)
+	if r.diagRet == "" || r.diag != "" {
+		return v
+	}
+	for _, rec := range r.db.VerifState().Recs {
+		if rec.Idx == blocks[i].idx && rec.Ipos != -1 && int64(rec.Dat) == r.recreated {
+			v.Sub = key
+			v.Key = "reopen-recreates-data-file-removed-by-retention"
+			v.What += " [" + key + "; diagnosed at reopen: " + r.diagRet + "]"
+		}
+	}
+	return v
+}
+
 func (r *runner) get(i int) *violation {
 	b := blocks[i]
 	m := r.m[i]
@@ -245,12 +267,12 @@ func (r *runner) get(i int) *violation {
 	case present:
 		if err != nil {
 			if req {
-				return r.fail("get/unreadable", "BlockGet(%s) fails: %v", b.name, err)
+				return r.getFail(i, "get/unreadable", "BlockGet(%s) fails: %v", b.name, err)
 			}
 			return nil
 		}
 		if !bytes.Equal(data, b.raw) {
-			return r.fail("get/wrong-bytes", "BlockGet(%s) returns %d bytes that differ from the %d stored", b.name, len(data), len(b.raw))
+			return r.getFail(i, "get/wrong-bytes", "BlockGet(%s) returns %d bytes that differ from the %d stored", b.name, len(data), len(b.raw))
 		}
 		if tr != m.Trusted {
 			return r.fail("get/trusted-flag", "BlockGet(%s) says trusted=%v, expected %v", b.name, tr, m.Trusted)
@@ -364,6 +386,11 @@ func (r *runner) reopen() *violation {
 	}
 	r.noteMaxDat()
 	r.dumpState("after reopen")
+	if st := r.db.VerifState(); r.diagRet == "" && r.c.Keep != 0 && st.MaxDatIdx+r.c.Keep < r.maxDat {
+		r.recreated = int64(st.MaxDatIdx)
+		r.diagRet = fmt.Sprintf("after the restart the store's newest data file is %d, which retention (keep=%d, newest file reached: %d) had already removed or moved to the backup directory: "+
+			"LoadBlockIndex ignores records marked invalid when it looks for the newest data file, re-creates file %d empty and appends to it at the old offset", st.MaxDatIdx, r.c.Keep, r.maxDat, st.MaxDatIdx)
+	}
 	v := r.checkListing(l)
 	for i := range r.m {
 		m := &r.m[i]
@@ -517,7 +544,7 @@ func (r *runner) enabled() []string {
 func (r *runner) key() string {
 	st := r.db.VerifState()
 	r.noteMaxDat()
-	b, _ := json.Marshal([]interface{}{r.m, r.queue, st, r.diag != "", r.maxDat})
+	b, _ := json.Marshal([]interface{}{r.m, r.queue, st, r.diag != "", r.maxDat, r.recreated})
 	h := sha256.Sum256(b)
 	return hex.EncodeToString(h[:12])
 }
@@ -578,7 +605,7 @@ type result struct {
 func replay(c cfg, alpha []int, hist []string, audit bool) (res result) {
 	dir := ev.Scratch("c16")
 	defer os.RemoveAll(dir)
-	r := &runner{c: c, alpha: alpha, dir: dir + "/blocks/"}
+	r := &runner{c: c, alpha: alpha, dir: dir + "/blocks/", recreated: -1}
 	defer func() {
 		if p := recover(); p != nil {
 			msg := reDigits.ReplaceAllString(fmt.Sprint(p), "N") // sizes and addresses out of the key
